@@ -254,11 +254,21 @@ func (g *progGen) stmt() string {
 		return st
 	}
 	for {
-		k := g.r.Intn(56)
+		k := g.r.Intn(58)
 		if g.long && g.obs && g.r.Bool() {
 			k = 22
 		}
 		switch k {
+		case 56, 57:
+			// a variable holding a value of one type, declared again without initialiser at another
+			// type: the declaration keeps the value, wherever the message boundary falls
+			if !g.obs {
+				continue
+			}
+			v := g.id("rv")
+			pair := core.Pick(g.r, [][2]string{{"2.5", "int"}, {"\"s\"", "int"}, {"3", "float64"}, {"4", "string"}, {"7", "int"}})
+			g.pending = append(g.pending, fmt.Sprintf("var %s %s", v, pair[1]), fmt.Sprintf("host.Obs(%q, %s)", g.id("rr"), v))
+			return fmt.Sprintf("%s := %s", v, pair[0])
 		case 50, 51:
 			// the struct type declared again with one more field, and a literal that sets it
 			if !g.structs || !g.obs || g.structC {
